@@ -7,13 +7,14 @@ def run(ctx, rep):
     emitrules.report(
         ctx,
         rep,
-        {"O1": "C05-R1", "O2": "C05-R1", "O3": "C05-R1", "O4": "C05-R1", "O10": "C05-R1b", "O11": "C05-R1c", "R2": "C05-R2", "O12b": "C05-R5", "O9": "C05-R7", "O5": "C05-R3", "O6": "C05-R3"},
+        {"O1": "C05-R1", "O2": "C05-R1", "O3": "C05-R1", "O4": "C05-R1", "O10": "C05-R1b", "O11": "C05-R1c", "R2": "C05-R2", "O12b": "C05-R5", "O9": "C05-R7", "O5": "C05-R3", "O6": "C05-R3", "O13": "C05-R3b"},
         {
             "C05-R1": "operand depth is consistent at every join, back edge and exit of every compiler branch (statements net 0, expressions +1)",
             "C05-R1b": "the compiler never emits code after its own unconditional jump without an intervening label or patch (no compiler-made dead code)",
             "C05-R1c": "every jump placeholder is patched exactly once; every context's break/continue lists are patched by the branch that created it",
             "C05-R2": "continue lands before the update/test (or iterator advance), break after the loop, back edges before the test/body, for each loop kind",
             "C05-R3": "leaving a construct early (labelled break/continue, continue inside switch, return) discards the operands it holds, so enclosing expressions are undisturbed",
+            "C05-R3b": "what each context on the compiler's context stack declares (operands held, handler record registered, finally block pending) is what the statement branch really set up whenever it compiles a nested statement, so that break/continue/return undo exactly that",
             "C05-R5": "per-function compiler state read by break/continue/return is saved, reset and restored by both function compilers",
             "C05-R7": "host re-entry loops return to their own caller (they notice unwinding below them and never run the caller's frames)",
         },
